@@ -129,10 +129,25 @@ def _expand_ifexp(conds, t):
         yield conds, t
 
 
+def _unstr(t, params):
+    """a category compared as a text is compared through its canonical text either way: `str(x) == "NP"` / `str(x) in (..)`
+    read like `x == "NP"` / `x in (..)` for the two category parameters of a rule"""
+    if not isinstance(t, tuple):
+        return t
+    if t and t[0] == 'cmp' and t[1] in ('==', '!=', 'in', 'not in'):
+        a, b = t[2], t[3]
+        if a[0] == 'call' and a[1] == N('str') and len(a[2]) == 1 and not a[3] and a[2][0][0] == 'name' and a[2][0][1] in params:
+            text_side = (b[0] == 'const' and isinstance(b[1], str)) or (b[0] in ('tuple', 'list', 'set') and all(x[0] == 'const' and isinstance(x[1], str) for x in b[1]))
+            if text_side:
+                return ('cmp', t[1], a[2][0], b)
+    return tuple(_unstr(x, params) for x in t)
+
+
 def outcomes(fn):
     outs = []
+    params_ = [a.arg for a in fn.args.args]
     for st, out in SymExec(fn, unroll=1).run():
-        conds = [(c, p) for c, p, _ in st.conds]
+        conds = [(_unstr(c, params_), p) for c, p, _ in st.conds]
         node = None
         for e in reversed(st.events):
             if e[0] == 'return':
